@@ -1,5 +1,6 @@
 import TRV.Proofs.Sound
 import TRV.Proofs.Engine
+import TRV.Proofs.OwnProbe
 /-!
 # C01 — Attribution soundness: only a genuine reply to probe t can fill hop t
 
@@ -92,6 +93,21 @@ theorem c01_only_sent_ttls_icmp {s : IcmpSt} {pkt : Bytes} {t : Nat} {a : Bytes}
     ∃ p ∈ s.sent, p.ttl = t ∧ p.time = tm :=
   (icmp4_sound h hv4).2
 
+/-- the tool's own outgoing probes, which the capture handle also sees, never create a hop:
+    ICMP/IPv4 echo request, UDP/IPv4 datagram, TCP SYN — for every TTL, address, port, identifier -/
+theorem c01_own_probe_ignored_icmp4 (s : IcmpSt) {src dst : Bytes} {echoId ttl : Nat} (hs : src.length = 4)
+    (hd : dst.length = 4) (hid : echoId < 65536) (httl : ttl < 256) :
+    icmpRecv s (Build.icmp4 src dst echoId ttl) = .retry := icmp4_own_probe s hs hd hid httl
+
+theorem c01_own_probe_ignored_udp4 (s : UdpSt) {src dst : Bytes} {sport dport ttl : Nat} (hs : src.length = 4)
+    (hd : dst.length = 4) (hsp : sport < 65536) (hdp : dport < 65536) (httl : ttl < 256) :
+    udpRecv s (Build.udp4 src dst sport dport ttl) = .retry := udp4_own_probe s hs hd hsp hdp httl
+
+theorem c01_own_probe_ignored_tcp (s : TcpSt) {src dst : Bytes} {sport dport id seq ttl : Nat} (hs : src.length = 4)
+    (hd : dst.length = 4) (hsp : sport < 65536) (hdp : dport < 65536) (hid : id < 65536) (hseq : seq < 4294967296)
+    (httl : ttl < 256) :
+    tcpRecv s (Build.tcpSyn src dst sport dport id seq ttl) = .retry := tcp_own_probe s hs hd hsp hdp hid hseq httl
+
 /-- run level: every filled slot of a parallel run's result is one of the accepted outcomes (the
     engine never invents or alters a hop) -/
 theorem c01_run_only_accepted {min max : Nat} {outs : List ROut} {r : List (Option Probe)} {p : Probe}
@@ -123,5 +139,8 @@ example :
 #print axioms c01_tcp_sound
 #print axioms c01_sack_sound
 #print axioms c01_only_sent_ttls_icmp
+#print axioms c01_own_probe_ignored_icmp4
+#print axioms c01_own_probe_ignored_udp4
+#print axioms c01_own_probe_ignored_tcp
 #print axioms c01_run_only_accepted
 end TRV.Props.C01
